@@ -190,6 +190,14 @@ def _deep_eq(x, y):
         return enum_eq(x, y)
     if hasattr(x, "attrs") and hasattr(y, "attrs") and "$digest_args" in x.attrs and "$digest_args" in y.attrs:
         return _deep_eq(x.attrs["$digest_args"], y.attrs["$digest_args"])  # a digest inside a digest (child identifier)
+    if hasattr(x, "cls") and hasattr(y, "cls") and hasattr(x, "attrs") and hasattr(y, "attrs"):
+        # two objects of the verifier (locations inside a digest): same class, equal public fields
+        if x.cls.name != y.cls.name:
+            return False
+        keys = [k for k in x.attrs if not k.startswith("_") and k in y.attrs]
+        return And(*[_deep_eq(x.attrs[k], y.attrs[k]) for k in keys])
+    if x is None or y is None:
+        return x is y
     if hasattr(x, "items") and hasattr(x, "ranges") and hasattr(y, "items"):
         return sorted(map(str, x.items)) == sorted(map(str, y.items))
     if hasattr(x, "length") and hasattr(x, "get") and hasattr(y, "get"):
@@ -625,3 +633,49 @@ CASES += [CollectionParentRoundTrip(k) for k in ("untyped id only", "typed chrom
                                                  "whole chromosome with sequence", "sequence chunk of either strand")]
 CASES += [CollectionParentRoundTrip(k, via="pickle state") for k in ("untyped id only", "typed chromosome, no sequence",
                                                                       "whole chromosome with sequence")]
+
+
+class PickleSetState(Case):
+    """Unpickling (__setstate__ on a blank object with the state __getstate__ produced) rebuilds EVERY constructor
+    field of an AnnotationCollection - bounds, members, name / id, qualifiers, and the completely_within flag that
+    query results carry - so the rebuilt object has the same identifier."""
+    props = ("C08",)
+    func = "gene.collections.AnnotationCollection.__setstate__"
+    module = "gene.collections"
+
+    def __init__(self, cw):
+        self.cw = cw
+        self.name = f"AnnotationCollection.__setstate__(__getstate__())[completely_within={cw}]"
+        self.call = ("(lambda o: (o.__setstate__(col.__getstate__()), (o.completely_within, o.start, o.end, "
+                     "[g.gene_id for g in o.genes], o.name, o.id, sorted(o.qualifiers), o.guid, col.guid))[1])(blank)")
+        self.ensures = {
+            "flag-bounds-members-names-qualifiers": lambda i, r: And(
+                r[0] is self.cw, r[1] == i.lo, r[2] == i.hi, list(r[3]) == ["g0"], r[4] == "nm", r[5] == "ident",
+                list(r[6]) == ["k"]),
+            "same-identifier": lambda i, r: _same_digest(r[7], r[8]),
+        }
+
+    def inputs(self, S):
+        from .c09_queries import AC, GENE
+        strand = strand_of(S, "strand")
+        s, e, lo, hi = S.int("s0"), S.int("e0"), S.int("col_start"), S.int("col_end")
+        S.assume(And(0 <= lo, lo <= s, s < e, e <= hi))
+        tx = S.new(TRANSCRIPT, [s], [e], strand, transcript_id="tx0")
+        gene = S.new(GENE, [tx], gene_id="g0")
+        col = S.new(AC, genes=[gene], start=lo, end=hi, name="nm", id="ident", qualifiers={"k": ["v"]},
+                    completely_within=self.cw)
+        blank = S.new(AC, sequence_name="blank")
+        return NS(col=col, blank=blank, lo=lo, hi=hi)
+
+    def samples(self, rng):
+        lo = rng.randint(0, 4)
+        s = lo + rng.randint(0, 3)
+        e = s + rng.randint(1, 5)
+        return dict(strand=rng.choice(["PLUS", "MINUS"]), s0=s, e0=e, col_start=lo, col_end=e + rng.randint(0, 3))
+
+    def observe(self, r):
+        from pyvc.check import default_observe as o
+        return [r[0], o(r[1]), o(r[2]), list(r[3]), r[4], r[5], list(r[6])]
+
+
+CASES += [PickleSetState(True), PickleSetState(False), PickleSetState(None)]
